@@ -38,6 +38,26 @@ if r2:
         st.setdefault(res.get(os.path.basename(d), {}).get("status", "?"), []).append(os.path.basename(d))
     head = "Round-2 seeds, evaluated against the checks as they stood when the seeds arrived (`first_status` in meta.json), and now:\n\n| seed | what it changes (needs to manifest) | now |\n|---|---|---|\n"
     put("ROUND2", head + "\n".join(row(d) for d in r2))
+resall = json.load(open(f"{V}/seeded/RESULTS_ALL.json")) if os.path.exists(f"{V}/seeded/RESULTS_ALL.json") else {}
+
+def row_all(d):
+    sid = os.path.basename(d)
+    try:
+        mj = json.load(open(f"{d}/meta.json"))
+    except Exception:
+        mj = {}
+    summ = " ".join(str(mj.get("summary", "")).split())[:150].replace("|", "/")
+    r = resall.get(sid, {})
+    rep = (r.get("report") or [""])[0]
+    rule = rep.split(" ")[0] if rep else ""
+    blind = mj.get("first_status", "?")
+    return f"| {sid} | {summ} | {blind} | {r.get('status', '?')}{': ' + rule if rule else ''} |"
+
+for rnd, name in (("r3", "ROUND3"), ("r4", "ROUND4")):
+    rr = [d for d in sorted(glob.glob(f"{V}/seeded/C??-{rnd}-*"))]
+    if rr and f"<!-- {name}:BEGIN -->" in s:
+        head = "| seed | what it changes | blind verdict (checks as they stood on arrival) | now (all 20 checks) |\n|---|---|---|---|\n"
+        put(name, head + "\n".join(row_all(d) for d in rr))
 tw = json.load(open(f"{V}/twins/RESULTS.json")) if os.path.exists(f"{V}/twins/RESULTS.json") else {}
 if tw:
     from collections import Counter
